@@ -246,7 +246,9 @@ QuietBad(s, tgt, tgterr, act, blk, incb, cbdone, open) ==
 
 \* n: the latest resolver call in flight when the root context was cancelled (0: none)
 PRootCancel(s) ==
-    LET A == Active(s) IN
+    \* (a call already superseded -- last reference dropped or context replaced while it ran, i.e. due --
+    \* will be discarded on return and is not "the" in-flight resolution)
+    LET A == Active(s) \ s.due IN
     [s EXCEPT !.rootc = [dead |-> TRUE, dirty |-> FALSE,
                          n |-> IF A = {} THEN 0 ELSE CHOOSE n \in A : \A m \in A : m <= n]]
 Dirty(s) == IF s.rootc.dead THEN [s EXCEPT !.rootc.dirty = TRUE] ELSE s
